@@ -96,7 +96,7 @@ func c01(c *ctx) {
 	}
 	for _, cs := range callsIn(handleHigh, false, checkHighQC) {
 		recv, vs := c.p.path(recvOf(cs)), c.p.path(argOf(cs, 3))
-		r.Check(recv == "$1.HighQc" && strings.Contains(vs, ".LoadCommittee(") && strings.Contains(vs, "$1.HighQc.Header.RootHeight"), "R1/handleHighQC/verified-value", c.p.Pos(cs.Pos()), "verifies the vote's HighQc against the committee of its root height", "CheckHighQC is applied to "+recv+" with committee "+vs)
+		r.Check(recv == "$1.HighQc" && has(vs, ".LoadCommittee(") && has(vs, "$1.HighQc.Header.RootHeight"), "R1/handleHighQC/verified-value", c.p.Pos(cs.Pos()), "verifies the vote's HighQc against the committee of its root height", "CheckHighQC is applied to "+recv+" with committee "+vs)
 	}
 	for _, cs := range callsIn(handleHigh, false, viewLess) {
 		a, b := c.p.path(recvOf(cs)), c.p.path(argOf(cs, 0))
